@@ -4,20 +4,31 @@ payload: {"kind": "static"} | {"kind": "history", "jobs": [job]} | {"kind": "gen
 history job: {"mods": [modspec], "custom": [passspec], "steps": [step], "only": k|None}
   modspec  = {"name": str|None, "kids": [[kind, index]], "feats": [str], "fault": str|None}       kind = inst | arr | pair
   passspec = {"key", "kind": "raiser"|"half", "at": position in the default list (raiser) | "base": class name (half),
-              "target": module index, "rewrites": bool, "k": int, "msg": str}
+              "target": module index, "rewrites": bool, "k": int, "msg": str, "exc": key of EXC (what is raised)}
   step     = {"op": "call", "entry": "to_proto"|"elaborate"|"netlist", "tops": [index], "elab": "default"|"custom"}
            | {"op": "edit", "mod": index, "what": str}
+           | {"op": "edit", "what": "retarget", "mod": parent index, "old": index, "to": index}   every instance of `old` in `mod` -> `to`
   only     = run the edits before step k and call k alone (what a fresh process gives for that call)
 Only the public hdl21 API is used to build, edit, elaborate and export; the class-level caches and the failure record are
 READ (never written) after each call.
 """
 from common import main
-import io, re, sys, hashlib
+import io, re, sys, hashlib, asyncio
 import hdl21 as h
 from hdl21.elab import Elaborator, set_elaborator, reset_elaborator
 
 P = sys.modules["hdl21.elab.passes"]
 ElabPass = P.ElabPass
+
+
+class Outcome(BaseException):
+    """what a test framework raises to end a test (pytest's Skipped / Failed derive from BaseException as well)"""
+
+
+# what a pass body / generator body is ended with; only the first is an `Exception`
+EXC = {"exc": RuntimeError, "kbd": KeyboardInterrupt, "exit": SystemExit, "outcome": Outcome,
+       "cancel": asyncio.CancelledError, "genexit": GeneratorExit}
+GEN_KINDS = {0: RuntimeError, 2: KeyboardInterrupt, 3: SystemExit, 4: Outcome, 5: asyncio.CancelledError, 6: GeneratorExit}
 
 
 def exc(e):
@@ -112,6 +123,15 @@ def build(job):
 def edit(mods, e):
     m = mods[e["mod"]]
     w = e["what"]
+    if w == "retarget":
+        # what a designer does with a module that is refused for good: build it anew, point its parents' instances there
+        n = 0
+        for ctr in (m.instances, m.instarrays, m.instbundles):
+            for x in ctr.values():
+                if x.of is mods[e["old"]]:
+                    x.of = mods[e["to"]]
+                    n += 1
+        return n
     if w == "missing":
         m.r9.connect("n", m.s)
     elif w in ("width", "orphan"):
@@ -127,6 +147,9 @@ def edit(mods, e):
         x.connect("bp", h.AnonymousBundle(x=m.s, y=m.t))
     elif w == "unnamed":
         m.name = e.get("name", "Named")
+    elif w == "addref":            # two more resistors, one connected to a port of the other (a port reference to resolve)
+        rx0 = m.add(h.Instance(of=h.R(r=1), name="rx0")); rx0.connect("p", m.s)
+        rx1 = m.add(h.Instance(of=h.R(r=1), name="rx1")); rx1.connect("n", m.s); rx1.connect("p", rx0.n)
     elif w == "addsig":            # an edit that repairs nothing: one more signal
         m.add(h.Signal(name="extra"))
     else:
@@ -143,14 +166,15 @@ def make_custom(job, mods):
     for ps in job.get("custom", []):
         target = mods[ps["target"]]
         msg = ps["msg"]
+        xcls = EXC[ps.get("exc", "exc")]
         if ps["kind"] == "raiser":
-            def mk(target=target, msg=msg, rewrites=ps.get("rewrites", True)):
+            def mk(target=target, msg=msg, rewrites=ps.get("rewrites", True), xcls=xcls):
                 class Raiser(ElabPass):
                     REWRITES_MODULES = rewrites
 
                     def elaborate_module(self, module):
                         if module is target:
-                            raise RuntimeError(msg)
+                            raise xcls(msg)
                         return module
                 return Raiser
             inserts.append((ps["at"], ps["key"], mk()))
@@ -160,7 +184,7 @@ def make_custom(job, mods):
             if not idx:
                 raise ValueError(ps["base"])
 
-            def mk(base=base, target=target, msg=msg, k=ps.get("k", 1)):
+            def mk(base=base, target=target, msg=msg, k=ps.get("k", 1), xcls=xcls):
                 class Half(base):
                     _in_target = False
                     _count = 0
@@ -177,7 +201,7 @@ def make_custom(job, mods):
                         if self._in_target:
                             self._count += 1
                             if self._count >= k:
-                                raise RuntimeError(msg)
+                                raise xcls(msg)
                         return super().flatname(segments, avoid=avoid, maxlen=maxlen)
                 return Half
             passes[idx[0]] = mk()
@@ -240,7 +264,7 @@ def do_call(step, mods, custom):
             byname.setdefault(m.name, []).append(i)
         names = [pm.name.split(".")[-1] for pm in pkg.modules]
         return dict(ok=hashlib.sha256(data).hexdigest()[:14], mods=[byname.get(n, [-1])[0] for n in names], names=names)
-    except Exception as e:
+    except BaseException as e:         # a KeyboardInterrupt ends a call as much as a design error does
         return dict(err=exc(e))
     finally:
         reset_elaborator()
@@ -261,8 +285,10 @@ def history(job):
     for k, st in enumerate(job["steps"]):
         if st["op"] == "edit":
             try:
-                edit(mods, st)
-                out.append(dict(edit="ok"))
+                # how many pass classes have completed the edited module so far (0 = it is as it was built)
+                lv = sum(1 for c in set(classes.values()) if mods[st["mod"]] in c.CLASS_LEVEL_CACHE.done)
+                n = edit(mods, st)
+                out.append(dict(edit="ok" if n != 0 else "noop", levels=lv, n=n))
             except Exception as e:
                 out.append(dict(edit="failed", err=exc(e)))
             continue
@@ -285,9 +311,11 @@ def static(_):
 
 # ------------------------------------------------------------------------------------------------ generators
 def gen_history(job):
-    """job: {"gens": [[nested key indices]], "steps": [{"key": k, "modes": {key: None|i}}], "only": k|None}
-    key k = generator k called with Params(w=1).  A body makes its nested calls in order and raises RuntimeError
-    after `i` of them when its current mode says so (the designer changes the body between calls)."""
+    """job: {"gens": [[nested key indices]], "uncached": [k], "steps": [{"key": k, "modes": {key: [i, kind]}}], "only": k|None}
+    key k = generator k called with Params(w=1); the generators in `uncached` are declared with enable_cache=False.
+    A body makes its nested calls in order and, when its current mode says so (the designer changes the body between
+    calls), ends after `i` of them: kind 0 raises RuntimeError, 1 returns something that is no Module, 2.. raise a
+    BaseException that is no Exception (GEN_KINDS)."""
     @h.paramclass
     class GP:
         w = h.Param(dtype=int, desc="w", default=1)
@@ -299,21 +327,26 @@ def gen_history(job):
     def mkgen(k, nested):
         def body(p: GP) -> h.Module:
             runs[k] = runs.get(k, 0) + 1
-            lim = modes.get(k)
+            lim, kind = modes.get(k, (None, 0))
+
+            def end():
+                if kind == 1:
+                    return "not a Module"
+                raise GEN_KINDS[kind](f"body of G{k} raised")
             made = []
             for j, nk in enumerate(nested):
                 if lim is not None and j >= lim:
-                    raise RuntimeError(f"body of G{k} raised")
+                    return end()
                 made.append(gens[nk](GP(w=1)))
             if lim is not None:
-                raise RuntimeError(f"body of G{k} raised")
+                return end()
             m = h.Module()
             m.x = h.Signal(width=p.w)
             for j, c in enumerate(made):
                 m.add(h.Instance(of=c, name=f"c{j}"))
             return m
         body.__name__ = f"G{k}"
-        return h.generator(body)
+        return h.generator(enable_cache=False)(body) if k in job.get("uncached", []) else h.generator(body)
 
     for k, nested in enumerate(job["gens"]):
         gens.append(mkgen(k, nested))
@@ -325,13 +358,14 @@ def gen_history(job):
             out.append(None)
             continue
         modes.clear()
-        modes.update({int(k): v for k, v in st["modes"].items() if v is not None})
+        modes.update({int(k): tuple(v) for k, v in st["modes"].items() if v is not None})
         try:
             m = gens[st["key"]](GP(w=1))
-            r = dict(ok=m.name)
+            # a generator call returns a Module or raises; anything else handed out is an outcome of its own
+            r = dict(ok=m.name) if isinstance(m, h.Module) else dict(err=dict(cls="NotAModule", msg=repr(m)[:80]))
         except RecursionError as e:
             r = dict(err=dict(cls="RecursionError", msg=""))
-        except Exception as e:
+        except BaseException as e:
             r = dict(err=exc(e))
         r["pend"] = len(cache.pending)
         r["stack"] = len(cache.stack)
